@@ -57,6 +57,7 @@ func ReleaseDecoder(dec *Decoder) {
 	}
 	dec.AlphaData = nil
 	lossyDecoderPool.Put(dec)
+	verifhook.PoolPut("lossy.Decoder")
 }
 
 // BoolSource abstracts the VP8 boolean decoder interface needed by the parser.
